@@ -213,6 +213,10 @@ theorem cti_bounded (N : Nat) (hN : 0 < N) : Core.SizeBounded (ctiCore (α := α
   show List.length s ≤ N
   rw [hi]; exact lastN_length_le N xs
 
+/-- Alma: its three deques (values, weights, outputs) hold at most N entries each -/
+theorem alma_bounded (N : Nat) (hN : 0 < N) (sigma offset : α) : Core.SizeBounded (almaCore (α := α) N sigma offset) (3 * N) :=
+  fun xs s h => Alma.size_le N hN sigma offset xs s h
+
 /-- RoofingFilter owns no buffer -/
 theorem roofing_bufferless (N M' : Nat) : ∀ s, (roofCoreU (α := α) N M').size s = 0 := fun _ => rfl
 end transc
